@@ -3,17 +3,26 @@
 # undo, and record the verdict in meta.json (`verif_result`). Nothing else may be using /repo meanwhile.
 cd /verif
 ids="$@"; [ -z "$ids" ] && ids=$(ls seeded | grep '^C')
-for id in $ids; do
-  [ -f seeded/$id/patch.diff ] || continue
+for sid in $ids; do
+  # seeded/<Cxx> (first round) or seeded/<Cxx>-<n> (later rounds): the property is the part before the dash
+  id=${sid%%-*}
+  [ -f seeded/$sid/patch.diff ] || continue
   git -C /repo checkout -q -- . ; 
-  if ! git -C /repo apply /verif/seeded/$id/patch.diff 2>/tmp/apply-$id.err; then echo "$id: patch does not apply"; cat /tmp/apply-$id.err | head -3; continue; fi
-  python3 scripts/check.py $id quick > /tmp/seed-$id.log 2>&1; rc=$?
+  if ! git -C /repo apply /verif/seeded/$sid/patch.diff 2>/tmp/apply-$sid.err; then
+    # made against an earlier commit: try a three-way merge
+    git -C /repo checkout -q -- . ; git -C /repo reset -q
+    if ! git -C /repo apply --3way /verif/seeded/$sid/patch.diff 2>/tmp/apply-$sid.err || git -C /repo diff --name-only --diff-filter=U | grep -q .; then
+      git -C /repo reset -q; git -C /repo checkout -q -- . ; echo "$sid: patch does not apply"; cat /tmp/apply-$sid.err | head -3; continue
+    fi
+    git -C /repo reset -q
+  fi
+  python3 scripts/check.py $id quick > /tmp/seed-$sid.log 2>&1; rc=$?
   git -C /repo checkout -q -- .
-  nviol=$(grep -c '^VIOLATION' /tmp/seed-$id.log); nnf=$(grep -c 'no-failing-input-found' /tmp/seed-$id.log)
+  nviol=$(grep -c '^VIOLATION' /tmp/seed-$sid.log); nnf=$(grep -c 'no-failing-input-found' /tmp/seed-$sid.log)
   first=$(ls replays/$id/quick-1.json 2>/dev/null)
   python3 - <<PY
 import json
-p='/verif/seeded/$id/meta.json'
+p='/verif/seeded/$sid/meta.json'
 m=json.load(open(p))
 rep=None
 try: rep=json.load(open('/verif/replays/$id/quick-1.json'))
@@ -23,6 +32,6 @@ m['verif_result']={'check':'python3 scripts/check.py $id quick','exit_code':$rc,
   'how':'patch applied to /repo with git apply, registered quick check run, undone with git checkout'}
 json.dump(m,open(p,'w'),indent=1)
 PY
-  echo "$id rc=$rc violations=$nviol no-failing-input=$nnf"
+  echo "$sid rc=$rc violations=$nviol no-failing-input=$nnf"
 done
 git -C /repo status --short | head -3
